@@ -183,7 +183,10 @@ impl TypedReprRef<'_> {
             RefSmall(x) => x.leading_zeros(),
             RefLarge(words) => words.last().unwrap().leading_zeros(),
         };
-        if leading_zeros % 8 == 0 {
+        // for a negated power of 256 the magnitude minus one is one byte shorter
+        // and the top bit of the complemented bytes is clear
+        let sign_lost = negate && bytes.last().map_or(true, |b| b & 0x80 == 0);
+        if leading_zeros % 8 == 0 || sign_lost {
             // add extra byte representing the sign, because the top bit is used
             bytes.push(if negate { 0xff } else { 0 });
         }
@@ -231,7 +234,8 @@ impl TypedReprRef<'_> {
             RefSmall(x) => x.leading_zeros(),
             RefLarge(words) => words.last().unwrap().leading_zeros(),
         };
-        if leading_zeros % 8 == 0 {
+        let sign_lost = negate && bytes.first().map_or(true, |b| b & 0x80 == 0);
+        if leading_zeros % 8 == 0 || sign_lost {
             // add extra byte representing the sign, because the top bit is used
             bytes.insert(0, if negate { 0xff } else { 0 });
         }
